@@ -40,6 +40,7 @@ func symCmd(argv []string) int {
 	maxPaths := fs.Int("maxpaths", 100000, "")
 	log := fs.String("smtlog", "", "")
 	solver := fs.String("solver", "z3", "")
+	merge := fs.Bool("merge", false, "")
 	fs.Parse(argv)
 	eng, err := checks.LoadRepo(strings.Split(*pkg, ",")...)
 	if err != nil {
@@ -63,6 +64,7 @@ func symCmd(argv []string) int {
 	eng.Cfg.Workers = *workers
 	eng.Cfg.MaxPaths = *maxPaths
 	eng.Cfg.Solver = *solver
+	eng.Cfg.Merge = *merge
 	_ = log
 	rep := eng.Explore(fn, checks.Ints(args...), nil, nil)
 	printReport(rep)
